@@ -60,4 +60,16 @@ META = {
         "relabelling (hash order) and RNG reseeding before get_random_cpds",
         [],
     ),
+    "C16": _m(
+        "one evaluation = one simulated run of one monitor: PURITY (3..8 calls from a menu of 34 inference / scoring / estimation / search / export / "
+        "conversion / sampling calls, deep canonical snapshots of every argument before and after), HISTORY (3..12 questions incl. virtual evidence, "
+        "refused questions and repeats put to one shared VariableElimination or BeliefPropagation engine; after every step the same question goes to a "
+        "fresh engine on a freshly built model) or TWIN (3..8 questions answered under two representations: other labels incl. int / tuple, renamed and "
+        "reordered states, other insertion orders, numpy vs torch).  Worlds: <=5 (6) variables, cardinality <=4.  Non-trivial = at least one checked step; "
+        "distinct = distinct trace digest.",
+        "faults: engine_reject_probe (refused question in the middle of a history), virtual_evidence_rebind, twin_config, backend_config, relabel, "
+        "insertion_permute.  The hash-seed dimension of the property is covered by running all three monitors under every worker's PYTHONHASHSEED against "
+        "hash-independent reference values (fresh engine / twin / brute-force joint).",
+        ["same_question_twice", "bad_question_refused"],
+    ),
 }
